@@ -109,6 +109,12 @@ def set_at(v, path, new):
     return v
 
 
+HOSTILE_NUMBERS = [10 ** 400, -10 ** 400, 2 ** 1024, {"$": "float", "s": "inf"}, {"$": "float", "s": "-inf"}, {"$": "float", "s": "nan"},
+                   1e308, -1e308, 10 ** 14, 86400000000000, -86399999913601, 2 ** 63, {"$": "dec", "s": "1E+400"},
+                   {"$": "dec", "s": "NaN"}, {"$": "dec", "s": "Infinity"}, {"$": "dec", "s": "sNaN"}, 1e14, 253402300800, -62135596801]
+HOSTILE_STRINGS = ["1/0", "1e999", "nan", "inf", "-inf", "Infinity", "1" * 400, "1e400", "é", "\ud800", "１２", "0x10", "1_000", " 1",
+                   "9999-99-99", "0000-01-01", "24:00:00", "2020-02-30", "12345678123456781234567812345678", "1.2.3.4/33", "::1/129",
+                   "[", "(?P<x>", "a" * 300, "====", "YQ", "\x00"]
 LOOKALIKE = [(0, False), (1, True), (False, 0), (True, 1), (1, 1.0), (1.0, 1), (0, 0.0), (1, "1"), ("1", 1), (None, "None"),
              (None, 0), (None, ""), (None, []), (True, "true"), (0, "0"), (0, None)]
 
@@ -121,6 +127,10 @@ def mutate(draw, v):  # noqa: C901, PLR0911, PLR0912
     is_key = len(path) >= 3 and path[-1] == 0 and path[-3] == "v" and isinstance(get_at(v, path[:-3]), dict) \
         and get_at(v, path[:-3]).get("$") in ("d", "dd", "custmap", "itemsonly", "dictsub")
     ops = ["replace_leaf", "replace_soup", "lookalike"]
+    if isinstance(node, (int, float)) and not isinstance(node, bool):
+        ops += ["hostile_number", "hostile_number"]
+    if isinstance(node, str):
+        ops += ["hostile_string"]
     if isinstance(node, str):
         ops += ["str_mut", "str_mut"]
     if isinstance(node, list) or (isinstance(node, dict) and node.get("$") in ("t", "set", "fset", "deque")):
@@ -132,6 +142,10 @@ def mutate(draw, v):  # noqa: C901, PLR0911, PLR0912
         new = draw(st.sampled_from(_LEAVES))
     elif op == "replace_soup":
         new = draw(st_soup(4))
+    elif op == "hostile_number":
+        new = draw(st.sampled_from(HOSTILE_NUMBERS))
+    elif op == "hostile_string":
+        new = draw(st.sampled_from(HOSTILE_STRINGS))
     elif op == "lookalike":
         cands = [b for a, b in LOOKALIKE if type(a) is type(node) and a == node]
         new = draw(st.sampled_from(cands)) if cands else draw(st.sampled_from(_LEAVES))
@@ -221,11 +235,13 @@ def _dedup_keys(v):
 
 
 @st.composite
-def st_near_valid(draw, tsp, max_mut: int = 3):
-    """(datum vspec, list of applied ops): the reference dump of a canonical value, mutated at k >= 0 positions."""
+def st_near_valid(draw, tsp, max_mut: int = 3, layouts=None):
+    """(datum vspec, list of applied ops): the reference dump of a canonical value, mutated at k >= 0 positions.
+    ``layouts``: optional model layouts for the reference dump (see tspec.use_layouts)."""
     hint, e = tspec.build_type(tsp)
     val = draw(tspec.st_value(tsp))
-    dumped = tspec.ref_dump(tsp, codec.build(val, e), e)
+    with tspec.use_layouts(layouts):
+        dumped = tspec.ref_dump(tsp, codec.build(val, e), e)
     v = encode_any(dumped)
     k = draw(st.integers(0, max_mut))
     ops = []
